@@ -204,6 +204,17 @@ def run(tier, v):
 
     _report_gaps(v, listed, pending, {GAP_EMPTY, GAP_SKIPPED})
 
+    # 4. the whole instance: scenarios whose route carries mute / active intervals, every flush,
+    #    delivery and GET /api/v2/alerts/groups answer validated against AMObs.tla (clauses C15_*)
+    from checks import e2ecommon
+    e = e2ecommon._run_scenarios(PID, tier, v, 250, 3000)
+    e2e_drift = e2ecommon.judge(PID, v, e, {"C15"})
+    gated_cfgs = sum(1 for l in e["lines"] if '"ev":"cfg"' in l and ('"mute":[{' in l or '"active":[{' in l))
+    muted_reports = sum(1 for l in e["lines"] if '"ev":"api.groups"' in l and '"mutedby":["' in l)
+    if gated_cfgs < 30 or muted_reports < 50:
+        raise vlib.Inconclusive("end-to-end scenarios hardly exercised time intervals (%d configurations, %d muted reports)" % (gated_cfgs, muted_reports))
+    log("  e2e: %d scenarios with mute/active intervals on the route, %d API answers reporting a muted group" % (gated_cfgs, muted_reports))
+
     samples = list(rep["samples"][:3]) + list(rec["samples"][:2])
     coverage = {
         "states": mc.distinct + g.distinct + trace_states,
@@ -215,6 +226,8 @@ def run(tier, v):
         "traces_validated_against_impl": accepted,
         "zones_recorded": rcn.get("zones", 0),
         "zone_transitions_seen": rcn.get("zone_transitions", 0),
+        "e2e_scenarios": e["runs"], "e2e_events_validated": len(e["lines"]), "e2e_scenarios_with_intervals": gated_cfgs,
+        "e2e_api_answers_reporting_muted_group": muted_reports, "e2e_drift": e2e_drift,
         "evaluations": rep["steps"] + accepted,
         "distinct_nontrivial": rep["nontrivial"],
         "verdicts": {"in": c.get("verdict_true", 0), "out": c.get("verdict_false", 0),
@@ -237,6 +250,9 @@ def run(tier, v):
         "interval specifications are those of the grammar in Gen_TimeIntervals.tla (each field absent/single/range/boundary values, one field at a "
         "time exhaustively, hand-picked and seeded random combinations), not all accepted specifications",
         "the minute grid is covered by boundary classes (day ends, range ends +-1, transitions +-61 min, month/year ends), not minute by minute",
+        "end-to-end: intervals are whole-minute windows of the virtual day 2000-01-01 UTC placed on a catch-all child route (the root route "
+        "may not carry intervals); a flush whose alerts are all inhibited skips the time stages and leaves the reported muted state unchanged "
+        "(noted as DRIFT_muted_state_not_refreshed_when_all_alerts_inhibited, not judged)",
         "the group's muted state is read from the real marker.GroupMarker (what GET /api/v2/alerts/groups reports); the HTTP layer is not exercised here",
     ]
     return "model_checking", coverage, assumptions
